@@ -40,6 +40,8 @@ def c15(ctx):
     except Exception as e:  # generated file missing: translator failed
         paths = []
     nonflat = [(n, p) for n, p in paths if not _flat(p)]
+    # atomicity obligation (lockprogs_single_section): more than one critical section on a path of one operation
+    nonflat += [(n + " (more than one critical section: not atomic)", p) for n, p in paths if sum(1 for i in p if i.startswith("Acq")) > 1]
     try:
         gen = open(os.path.join(ctx["coq"], "Generated", "LockProgs.v")).read()
         for fn, so, sl in re.findall(r'\("([A-Za-z0-9_]+)", (true|false), (true|false)\)', gen):
@@ -77,5 +79,5 @@ def c15(ctx):
                  "replay_cmd": "cd /verif/harness && go run -race -tags verif ./cmd/stress -dur 1500ms"}
         viol.append((ctx["write_replay"](ctx["pid"], "schedule", sched), True))
     elif nonflat:
-        errs.append("lock programs not flat: " + json.dumps(cov["non_flat_paths"])[:800])
+        errs.append("lock programs not flat / not one critical section per operation: " + json.dumps(cov["non_flat_paths"])[:800])
     return viol, cov, errs
